@@ -242,7 +242,13 @@ def coq_classify(run, rows):
 def main(tier, seed, replay=None):
     memo_build()
     run = Run(PROP, tier, seed)
-    vrace, proof = prepare(PROP_FILES, thorough=(tier == "thorough"))
+    vrace, proof = prepare(PROP_FILES, thorough=False)
+    chk = None
+    if tier == "thorough" and proof.get("ok"):
+        # coqchk of the property's cone, in the background while the scenarios run
+        # (common.prepare's own coqchk call lacks the logical prefix: run it here with the full name)
+        chk = subprocess.Popen("timeout 2400 coqchk -silent -o -Q . Arrai Arrai.Properties.C11", shell=True, cwd=common.COQ,
+                               stdout=subprocess.PIPE, stderr=subprocess.STDOUT, text=True)
     rng = random.Random(seed)
     open_sigs = {f["sig"] for f in run.opened}
     q_cur = {q: False for q in set(QUIRK_OF_SIG.values())}
@@ -325,6 +331,14 @@ def main(tier, seed, replay=None):
             if not serial or hang:
                 run.classify_failure(None, dict(base, oracle="a goroutine's result differs from the single-goroutine result, or a goroutine never returned (scenario %s)" % s["name"]))
     codes = coq_classify(run, rows) if rows else {}
+    if chk is not None:
+        out = chk.communicate()[0]
+        proof["coqchk"] = out[-1500:]
+        proof["checker_cmd"] += " ; coqchk -silent -o -Q . Arrai Arrai.Properties.C11"
+        if chk.returncode != 0 or "Axioms: <none>" not in out:
+            proof["broken"].append({"what": "coqchk failed or reports axioms", "log": out[-1500:]})
+            proof["ok"] = False
+            proof["discharged"] = 0
     for row in rows:
         code = codes.get(row["id"])
         s, r = scenarios[row["id"]], results[row["id"]]
